@@ -124,4 +124,45 @@ theorem engLoop_eq (fx : Fixes) (hfx : Repaired fx) (sk : Sink) (m : Nat) :
                   simp only [Except.map]
                   exact ih r' a'' s1 rest hgo hok'.2 (room_step sk m text rest s s1 hroom ho)
 
+open SafeC.Gen in
+/-- the engine on a buffer of `dmax` cells when the text fits in `dmax` cells: index, stored text, terminator position -/
+theorem engine_buffer_fits (fx : Fixes) (hfx : Repaired fx) (dmax : Nat) (init : List Char) (fmt : Str) (args : List Arg) (T : Str)
+    (hT : Spec.printf fmt args = some T) (hok : fmtOK fmt.length fmt args = true) (hinit : init.length = dmax) (hfit : T.length ≤ dmax) :
+    ∃ s', engine fx .buffer dmax fmt args ⟨0, init, []⟩ = .ok s' ∧ s'.idx = T.length ∧ s'.cells.length = dmax ∧
+      (T.length < dmax → s'.cells.take T.length = T ∧ s'.cells[T.length]? = some '\x00') ∧
+      (T.length = dmax → s'.cells.take (dmax - 1) = T.take (dmax - 1) ∧ (0 < dmax → s'.cells[dmax - 1]? = some '\x00')) := by
+  unfold engine
+  rw [engLoop_eq fx hfx .buffer dmax fmt.length fmt args ⟨0, init, []⟩ T hT hok (Or.inl ⟨rfl, Nat.zero_le _⟩)]
+  obtain ⟨s1, h1, h2, _, h4, h5, _⟩ := emitAll_buffer_fits dmax T ⟨0, init, []⟩ (by simpa using hfit) hinit
+  simp only [Nat.zero_add, List.take_zero, List.nil_append] at h2 h5
+  rw [h1]
+  simp only [bind, Except.bind, pure, Except.pure]
+  refine ⟨_, rfl, h2, by simp [h4], ?_, ?_⟩
+  · intro hlt
+    simp only [h2, hlt, if_true]
+    rw [h2] at h5
+    refine ⟨?_, ?_⟩
+    · rw [List.take_set_of_le (Nat.le_refl _)]; exact h5
+    · rw [List.getElem?_set_self (by omega)]
+  · intro heq
+    have hnlt : ¬ s1.idx < dmax := by omega
+    simp only [hnlt, if_false]
+    rw [h2] at h5
+    refine ⟨?_, ?_⟩
+    · rw [List.take_set_of_le (Nat.le_refl _)]
+      have : s1.cells.take (dmax - 1) = (s1.cells.take T.length).take (dmax - 1) := by
+        rw [List.take_take]; congr 1; omega
+      rw [this, h5]
+    · intro hpos; rw [List.getElem?_set_self (by omega)]
+
+open SafeC.Gen in
+/-- … and when it does not: `-ESNOSPC` from the sink at the first character beyond `dmax` -/
+theorem engine_buffer_overflow (fx : Fixes) (hfx : Repaired fx) (dmax : Nat) (init : List Char) (fmt : Str) (args : List Arg) (T : Str)
+    (hT : Spec.printf fmt args = some T) (hok : fmtOK fmt.length fmt args = true) (hover : dmax < T.length) :
+    engine fx .buffer dmax fmt args ⟨0, init, []⟩ = .error (.ret ESNOSPCi) := by
+  unfold engine
+  rw [engLoop_eq fx hfx .buffer dmax fmt.length fmt args ⟨0, init, []⟩ T hT hok (Or.inl ⟨rfl, Nat.zero_le _⟩)]
+  rw [emitAll_buffer_overflow dmax T ⟨0, init, []⟩ (Nat.zero_le _) (by simpa using hover)]
+  rfl
+
 end SafeC.Printf
